@@ -79,7 +79,28 @@ P6 = {   # two live local binders of the same name: parameter vs. rec binder, re
     ],
     "nonident": [("main.oal", 0, 31)],
 }
-PROGRAMS = {"unqualified-import": P5, "nested-same-name-binders": P6, "single-module": P1, "two-modules": P2, "shadowing-and-reference": P3, "sibling-modules-same-shape": P4}
+P7 = {   # modules in sub-directories: an import is relative to the module that contains the `use`
+    "files": {"main.oal": 'use "lib/a.oal" as a;\nuse "util.oal" as r;\nres / on get -> <a.w> :: <status=404, r.t>;\n',
+              "util.oal": "let t = { 'root str };\n", "lib/a.oal": 'use "util.oal" as u;\nlet w = { \'v u.t };\n', "lib/util.oal": "let t = { 'lib num };\n"},
+    "occ": [
+        ("main.oal", 0, 19, "a", "qdecl", "qa"), ("main.oal", 1, 18, "r", "qdecl", "qr"),
+        ("main.oal", 2, 17, "a", "quse", "qa"), ("main.oal", 2, 19, "w", "use", "a.w"), ("main.oal", 2, 38, "r", "quse", "qr"), ("main.oal", 2, 40, "t", "use", "root.t"),
+        ("util.oal", 0, 4, "t", "decl", "root.t"),
+        ("lib/a.oal", 0, 18, "u", "qdecl", "qu"), ("lib/a.oal", 1, 4, "w", "decl", "a.w"), ("lib/a.oal", 1, 13, "u", "quse", "qu"), ("lib/a.oal", 1, 15, "t", "use", "lib.t"),
+        ("lib/util.oal", 0, 4, "t", "decl", "lib.t"),
+    ],
+    "nonident": [("lib/a.oal", 1, 10)],
+}
+PROGRAMS = {"modules-in-sub-directories": P7, "unqualified-import": P5, "nested-same-name-binders": P6, "single-module": P1, "two-modules": P2, "shadowing-and-reference": P3, "sibling-modules-same-shape": P4}
+
+
+def relname(uri, root):
+    """File name of a document relative to the workspace root (modules may live in sub-directories)."""
+    p = uri[len("file://"):] if uri.startswith("file://") else uri
+    try:
+        return os.path.relpath(p, root)
+    except ValueError:
+        return os.path.basename(p)
 
 
 def pos(l, c):
@@ -102,7 +123,7 @@ def text_of(files, fn, rng):
 def apply_edits(files, changes, root):
     out = dict(files)
     for uri, edits in (changes or {}).items():
-        fn = os.path.basename(uri)
+        fn = relname(uri, root)
         lines = out[fn].split("\n")
         for ed in sorted(edits, key=lambda e: (e["range"]["start"]["line"], e["range"]["start"]["character"]), reverse=True):
             s, e = ed["range"]["start"], ed["range"]["end"]
@@ -122,6 +143,7 @@ def run(rdir, want=("definition", "references", "rename")):
         os.makedirs(root, exist_ok=True)
         files = dict(P["files"])
         for n, t in list(files.items()) + [("oal.toml", OAL_TOML)]:
+            os.makedirs(os.path.dirname(os.path.join(root, n)), exist_ok=True)
             with open(os.path.join(root, n), "w") as f:
                 f.write(t)
         # original and renamed programs are compiled at the same location (implicit component names hash the URL)
@@ -166,14 +188,14 @@ def run(rdir, want=("definition", "references", "rename")):
                 r = req("textDocument/definition", fn, l, c)
                 if r is not None:
                     bfn, bl, bc, _ = binders[bid]
-                    ok = isinstance(r, dict) and os.path.basename(r.get("uri", "")) == bfn and contains(r["range"], bl, bc)
+                    ok = isinstance(r, dict) and relname(r.get("uri", ""), root) == bfn and contains(r["range"], bl, bc)
                     if not ok:
                         probs.append("%s: definition of '%s' at %s:%d:%d does not point at its binder %s:%d:%d (got %s)" % (pname, name, fn, l, c, bfn, bl, bc, json.dumps(r)[:120]))
             # ---- references
             if "references" in want and role == "decl":
                 r = req("textDocument/references", fn, l, c, {"context": {"includeDeclaration": False}})
                 if r is not None:
-                    got = sorted((os.path.basename(x["uri"]), x["range"]["start"]["line"], x["range"]["start"]["character"]) for x in r)
+                    got = sorted((relname(x["uri"], root), x["range"]["start"]["line"], x["range"]["start"]["character"]) for x in r)
                     exp = sorted((u[0], u[1], u[2] + (0 if not u[3].startswith("@") else 0)) for u in uses.get(bid, []))
                     if got != exp:
                         probs.append("%s: references of '%s' are %s, expected %s" % (pname, name, got, exp))
@@ -181,7 +203,7 @@ def run(rdir, want=("definition", "references", "rename")):
                     for (ufn, ul, uc) in got:
                         if "definition" in want:
                             r2 = req("textDocument/definition", ufn, ul, uc)
-                            if r2 is not None and not (isinstance(r2, dict) and os.path.basename(r2.get("uri", "")) == fn and contains(r2["range"], l, c)):
+                            if r2 is not None and not (isinstance(r2, dict) and relname(r2.get("uri", ""), root) == fn and contains(r2["range"], l, c)):
                                 probs.append("%s: reference %s:%d:%d of '%s' does not lead back to it" % (pname, ufn, ul, uc, name))
             # ---- rename
             if "rename" in want:
@@ -194,14 +216,14 @@ def run(rdir, want=("definition", "references", "rename")):
                     if r is None:
                         continue
                     ch = (r or {}).get("changes") or {}
-                    edits = [(os.path.basename(u), e) for u, es in ch.items() for e in es]
+                    edits = [(relname(u, root), e) for u, es in ch.items() for e in es]
                     # the name being renamed is the one the server announced in prepareRename
                     oldname = text_of(files, fn, pr) if isinstance(pr, dict) and "start" in pr else name
                     new = ("@zz9" if (oldname or "").startswith("@") else "zz9")
                     if r is not None and any(e["newText"] != new for es in ((r or {}).get("changes") or {}).values() for e in es):
                         r = req("textDocument/rename", fn, l, c, {"newName": new})
                         ch = (r or {}).get("changes") or {}
-                        edits = [(os.path.basename(u), e) for u, es in ch.items() for e in es]
+                        edits = [(relname(u, root), e) for u, es in ch.items() for e in es]
                     bad_text = [e for f2, e in edits if text_of(files, f2, e["range"]) != oldname]
                     if bad_text:
                         probs.append("%s: rename of '%s' at %s:%d:%d edits text that is not the old name: %s" % (pname, name, fn, l, c, [text_of(files, f2, e["range"]) for f2, e in edits][:4]))
